@@ -133,7 +133,224 @@ def build():
                         "implies(not changes_empty(tc_of(self, node)), result == dc_replace(node, tc_of(self, node)))"],
                note="no change -> the very same node object; otherwise a new node built by dataclasses.replace from exactly the collected changes"))
     lem = [concat_from_first(first, vmeth, vname, OM, VIS, CLS, SC)]
+    lem += transform_children(world, lib, reg, nv, VIS)
     return world, lib, reg, lem
+
+
+def transform_children(world, lib, reg, nv, VIS):
+    """ASTTransformVisitor._transform_children against folds over the child positions kids(node).
+
+    visit_result_at(i) : Opt[Ref] is the result of the i-th visit() call of this execution (a skolem function of the
+    position: the visitor is user code and may return anything).  Over a prefix s of kids(node):
+      tmap(s)   field name -> collected value: for a single field the visit result (a node or None), for a tuple field the
+                list of the non-None results in order (created, possibly empty, at the field's first element)
+      tchg(s)   the set of field names with a change: some visit result is None or is not the very child it was given
+    The mapping returned is empty when tchg(kids) is empty; otherwise it holds exactly the names of tchg(kids), each with
+    tmap's value, lists turned into tuples.  Stated pointwise for an arbitrary key k (ghost parameter)."""
+    import ast as _ast
+
+    from pyvc.core import mk_snoc
+    from pyvc.maps import VMap, VSet, map_sort, set_sort
+    from pyvc.symex import RaiseSig
+    from pyvc.values import BOOL, INT, NONE, EngineError, VExc, VHeapRef, VInt, VNone, VSeq, fresh_name
+    from .dup_area import field_vocab
+
+    REF, CPOS = nv.REF, nv.CPOS
+    SCP = seq_of(CPOS)
+    OR = opt_of(REF)
+    fv = field_vocab(world, lib, nv)
+    FV, SR, kind, items, node_of = fv["FV"], fv["SR"], fv["kind"], fv["items"], fv["node"]
+    mk_one, mk_many, mk_list, FV_NONE = fv["mk_one"], fv["mk_many"], fv["mk_list"], fv["FV_NONE"]
+    CH, NS = map_sort(STR, FV), set_sort(STR)
+    OFV = CH.opt
+    res_at = z3.Function("visit_result_at", z3.IntSort(), OR.z3())
+    present = lambda mp, k: z3.Not(OFV.is_none(z3.Select(mp, k)))
+    got = lambda mp, k: OFV.val(z3.Select(mp, k))
+    c_child = lambda p: CPOS.get(CPOS.wrap(p).term, "child").term
+    c_name = lambda p: nv.fname(CPOS.get(CPOS.wrap(p).term, "field").term)
+    c_idx = lambda p: CPOS.get(CPOS.wrap(p).term, "index").term
+    OI = opt_of(INT)
+    tmap, tchg = lib.fn("tmap", [SCP], CH), lib.fn("tchg", [SCP], NS)
+
+    def tmap_snoc(a, p):
+        s_, x = p
+        r, nm, prev = res_at(z3.Length(s_)), c_name(x), tmap.t(s_)
+        # tuple field: the entry is created (empty list) at the field's first element; a non-None result is appended
+        m1 = z3.If(present(prev, nm), prev, z3.Store(prev, nm, OFV.some(FV.wrap(mk_list(z3.Empty(SR.z3())))).term))
+        seqmap = z3.If(OR.is_none(r), m1, z3.Store(m1, nm, OFV.some(FV.wrap(mk_list(z3.Concat(items(got(m1, nm)), z3.Unit(OR.val(r)))))).term))
+        single = z3.If(OR.is_none(r), FV_NONE.term, mk_one(OR.val(r)))
+        return z3.If(OI.is_none(c_idx(x)), z3.Store(prev, nm, OFV.some(FV.wrap(single)).term), seqmap)
+
+    def tchg_snoc(a, p):
+        s_, x = p
+        r = res_at(z3.Length(s_))
+        return z3.If(z3.Or(OR.is_none(r), OR.val(r) != c_child(x)), z3.Store(tchg.t(s_), c_name(x), z3.BoolVal(True)), tchg.t(s_))
+
+    tmap.rule("tmap-empty", 0, "empty")(lambda a, p: CH.empty().term)
+    tmap.rule("tmap-snoc", 0, "snoc")(tmap_snoc)
+    tchg.rule("tchg-empty", 0, "empty")(lambda a, p: NS.empty().term)
+    tchg.rule("tchg-snoc", 0, "snoc")(tchg_snoc)
+    # chg_sub(S, M): every name in S is a key of M  (forall k. S[k] => k in M); used through four proved consequences
+    chg_sub = z3.Function("names_are_keys", NS.z3(), CH.z3(), z3.BoolSort())
+    # keys_are(KS, S): the key sequence KS lists exactly the names of S
+    keys_are = z3.Function("keys_list_exactly", z3.SeqSort(z3.StringSort()), NS.z3(), z3.BoolSort())
+    conv = lambda v: z3.If(kind(v) == 3, mk_many(items(v)), v)
+
+    def instances(formulas):
+        out, seen, stack = [], set(), list(formulas)
+        subs, kas, keys = [], [], {}
+        while stack:
+            f = stack.pop()
+            if not z3.is_app(f) or f.get_id() in seen:
+                continue
+            seen.add(f.get_id())
+            nm = f.decl().name()
+            if nm == "names_are_keys":
+                subs.append(f)
+            if nm == "keys_list_exactly":
+                kas.append(f)
+            if f.decl().kind() in (z3.Z3_OP_STORE, z3.Z3_OP_SELECT) and f.arg(1).sort() == z3.StringSort():
+                keys[f.arg(1).get_id()] = f.arg(1)
+            if f.decl().kind() == z3.Z3_OP_SEQ_UNIT and f.arg(0).sort() == z3.StringSort():
+                keys[f.arg(0).get_id()] = f.arg(0)
+            stack.extend(f.children())
+        done = set()
+
+        def emit(x):
+            if x.get_id() not in done:
+                done.add(x.get_id())
+                out.append(x)
+        for ap in subs:
+            S_, M_ = ap.arg(0), ap.arg(1)
+            Ss, Ms = [S_], [M_]
+            if z3.is_app(S_) and S_.decl().kind() == z3.Z3_OP_STORE:
+                Ss.append(S_.arg(0))
+            if z3.is_app(M_) and M_.decl().kind() == z3.Z3_OP_STORE:
+                Ms.append(M_.arg(0))
+            if z3.is_app(S_) and S_.decl().kind() == z3.Z3_OP_CONST_ARRAY:
+                emit(z3.Implies(z3.Not(S_.arg(0)), ap))                                                            # S-empty
+            if len(Ms) == 2:                                                                                       # S-store-map: a stored (present) value keeps every key
+                emit(z3.Implies(z3.And(chg_sub(S_, Ms[1]), z3.Not(OFV.is_none(M_.arg(2)))), ap))
+                for S0 in Ss[1:]:
+                    emit(z3.Implies(z3.And(chg_sub(S0, Ms[1]), z3.Not(OFV.is_none(M_.arg(2)))), chg_sub(S0, M_)))
+            if len(Ss) == 2:                                                                                       # S-add-name: the added name is a key
+                emit(z3.Implies(z3.And(chg_sub(Ss[1], M_), z3.Or(z3.Not(S_.arg(2)), present(M_, S_.arg(1)))), ap))
+            for k in keys.values():                                                                                # S-elim
+                for S0 in Ss:
+                    for M0 in Ms:
+                        emit(z3.Implies(z3.And(chg_sub(S0, M0), z3.Select(S0, k)), present(M0, k)))
+        for ap in kas:
+            KS, S_ = ap.arg(0), ap.arg(1)
+            for k in keys.values():                                                                                # K-elim (both directions)
+                emit(z3.Implies(ap, z3.Contains(KS, z3.Unit(k)) == z3.Select(S_, k)))
+        return out
+
+    lib.extra_instantiators.append(instances)
+    sf = world.spec_fns
+    sf.update({"tmap": tmap, "tchg": tchg, "names_are_keys": lambda S_, M_: VBool(chg_sub(S_.term, M_.term)),
+               "in_set": lambda S_, k: VBool(z3.Select(S_.term, STR.coerce(k).term)),
+               "no_names": lambda S_: VBool(S_.term == NS.empty().term),
+               "conv": lambda v: FV.wrap(conv(FV.coerce(v).term)),
+               "is_list_val": lambda v: VBool(kind(FV.coerce(v).term) == 3),
+               "kids_len_ok": lambda n: VBool(z3.BoolVal(True))})
+
+    def attr(m, obj, name):
+        if isinstance(obj, VU) and obj.sort == FV and name == "append":
+            return VBound(obj, "append")
+        return None
+
+    world.attr_hooks.insert(0, attr)
+
+    def call(m, func, a, kw, nd):
+        q = m.contract.qualname
+        if not q.endswith("_transform_children"):
+            return NotImplemented
+        if isinstance(func, VBound) and isinstance(func.recv, VU) and func.recv.sort == VIS and func.name == "visit":
+            # the i-th visit() call of this execution: user code, may raise, returns a node or None
+            if m.ctx.branch(z3.Bool(fresh_name("visit_raises"))):
+                raise RaiseSig(VExc("Exception"))
+            prev = m.ghost_env.get("prev_done1")
+            if prev is None:
+                raise EngineError("visit() outside the loop over the child positions")
+            return VOpt(res_at(z3.Length(prev.term)), OR)
+        if nd is not None and isinstance(nd.func, _ast.Attribute) and nd.func.attr == "append" and isinstance(nd.func.value, _ast.Subscript) \
+                and isinstance(nd.func.value.value, _ast.Name):
+            # d[key].append(x) on a dict whose values are lists created by `d[key] = []` in this function (never aliased): functional update of the entry
+            d_ = m.env.get(nd.func.value.value.id)
+            if isinstance(d_, VHeapRef) and m.ctx.cell(d_.addr).kind == "dict":
+                from pyvc.maps import dict_getitem, dict_store
+                cell = m.ctx.cell(d_.addr)
+                key = m.eval(nd.func.value.slice)
+                cur = dict_getitem(m, cell, key)
+                if not m.ctx.branch(kind(cur.term) == 3):
+                    raise RaiseSig(VExc("AttributeError"))
+                x = REF.coerce(a[0])
+                dict_store(m, cell, key, fv["lst"](m, VSeq(z3.Concat(items(cur.term), z3.Unit(x.term)), SR)))
+                return NONE
+        if isinstance(func, VPy) and func.obj == ("builtin", "tuple") and len(a) == 1 and isinstance(a[0], VU) and a[0].sort == FV:
+            return fv["many"](m, VSeq(items(a[0].term), SR))
+        return NotImplemented
+
+    def isinst(m, v, cls):
+        if isinstance(v, VU) and v.sort == FV and getattr(cls, "name", None) == "list":
+            return kind(v.term) == 3
+        return None
+
+    def dictcomp(m, e, hint):
+        # {fname: changes[fname] for fname in field_names_with_changes}: the restriction of a dict to a set of its keys
+        if not (len(e.generators) == 1 and not e.generators[0].ifs and isinstance(e.generators[0].target, _ast.Name) and isinstance(e.key, _ast.Name)
+                and e.key.id == e.generators[0].target.id and isinstance(e.value, _ast.Subscript) and isinstance(e.value.value, _ast.Name)
+                and isinstance(e.value.slice, _ast.Name) and e.value.slice.id == e.key.id):
+            return None
+        S_ = m.eval(e.generators[0].iter)
+        D_ = m.env.get(e.value.value.id)
+        if not (isinstance(S_, VHeapRef) and m.ctx.cell(S_.addr).kind == "set" and isinstance(D_, VHeapRef) and m.ctx.cell(D_.addr).kind == "dict"):
+            return None
+        sv, dv = m.ctx.cell(S_.addr).value, m.ctx.cell(D_.addr).value
+        # every iterated name must be a key (otherwise KeyError)
+        ok = chg_sub(sv.term, dv.term)
+        m.ctx.check(ok, f"{m.contract.key}/dictcomp/every-name-is-a-key", "model")
+        kq = z3.Const("k_restrict", z3.StringSort())
+        R = z3.Lambda([kq], z3.If(z3.Select(sv.term, kq), z3.Select(dv.term, kq), OFV.none().term))
+        KS = seq_of(STR).fresh("restricted_keys")
+        m.ctx.assume(keys_are(KS.term, sv.term))
+        return VHeapRef(m.ctx.alloc("dict", VMap(R, CH), {"keys": KS}), "dict")
+
+    world.call_hooks.insert(0, call)
+    world.isinstance_hooks.insert(0, isinst)
+    world.dictcomp_hook = dictcomp
+    A = reg.add
+    P = ["C09"]
+    A(Contract(f"{M}:ASTNode.get_child_nodes_with_field", params={"self": "Ref", "sort_keys": "bool"}, returns="Seq[ChildPos]", props=P, trusted=True,
+               trusted_reason="the specialised accessor generated per class, proved under C12 (== kids(self), in declaration order)", ensures=["result == kids(self)"]))
+    KEY_IN = "in_set(tchg(kids(node)), k)"
+    A(Contract("pyoak.visitor:ASTTransformVisitor._transform_children", variant_of="body", params={"self": "Visitor", "node": "Ref"}, returns="Dict[str,FieldVal]", props=P,
+               ghost={"k": "str"}, may_raise=["Exception"],
+               locals={"changes": "Dict[str,FieldVal]", "field_names_with_changes": "Set[str]", "new_child": "Opt[Ref]", "val": "FieldVal"},
+               ensures=[f"implies(no_names(tchg(kids(node))), k not in result)",
+                        f"implies(not no_names(tchg(kids(node))) and {KEY_IN}, k in result and result[k] == conv(tmap(kids(node))[k]) and not is_list_val(result[k]))",
+                        f"implies(not no_names(tchg(kids(node))) and not {KEY_IN}, k not in result)"],
+               loops={1: Loop(inv=["changes == tmap(done1)", "field_names_with_changes == tchg(done1)", "names_are_keys(field_names_with_changes, changes)", "seq1 == kids(node)"]),
+                      2: Loop(inv=["implies(contains(done2, k), (k in changes) == (k in changes_at2) and changes[k] == conv(changes_at2[k]))",
+                                   "implies(not contains(done2, k), (k in changes) == (k in changes_at2) and changes[k] == changes_at2[k])",
+                                   "keys_of(changes) == seq2"])},
+               note="for an arbitrary field name k: nothing is returned when no child changed; otherwise k is returned exactly when some child of field k was replaced or removed, "
+                    "with the visit result (single field) or the tuple of the non-None visit results in order (tuple field)"))
+    reg.contracts["pyoak.visitor:ASTTransformVisitor._transform_children#body"].fn = "pyoak.visitor:ASTTransformVisitor._transform_children"
+    sf["contains"] = lambda s_, x: VBool(z3.Contains(s_.term, z3.Unit(STR.coerce(x).term)))
+    # ---- the quantified facts behind names_are_keys / keys_list_exactly -------------------------------------------
+    kq = z3.Const("k_q", z3.StringSort())
+    Dsub = lambda S_, M_: z3.ForAll([kq], z3.Implies(z3.Select(S_, kq), present(M_, kq)))
+    S0, M0 = z3.Const("S_l", NS.z3()), z3.Const("M_l", CH.z3())
+    k0, v0, b0 = z3.Const("k0_l", z3.StringSort()), z3.Const("v0_l", OFV.z3()), z3.Const("b0_l", z3.BoolSort())
+
+    def sub_all(bank):
+        goal = z3.And(Dsub(NS.empty().term, M0),
+                      z3.Implies(z3.And(Dsub(S0, M0), z3.Not(OFV.is_none(v0))), Dsub(S0, z3.Store(M0, k0, v0))),
+                      z3.Implies(z3.And(Dsub(S0, M0), z3.Or(z3.Not(b0), present(M0, k0))), Dsub(z3.Store(S0, k0, b0), M0)),
+                      z3.Implies(z3.And(Dsub(S0, M0), z3.Select(S0, k0)), present(M0, k0)))
+        return [], goal
+    return [Lemma("names_are_keys-rules", [("all", sub_all)], P)]
 
 
 def concat_from_first(first, vmeth, vname, OM, VIS, CLS, SC):
